@@ -97,6 +97,44 @@ Theorem C19_runave_one_line_per_step : forall (xs : list R) (L s it0 : nat), (1 
 Proof. exact runave_steps_nodup. Qed.
 Print Assumptions C19_runave_one_line_per_step.
 
+(* Any value type (scalar, periodic scalar, 3-vector, unit vector, quaternion: V with the operations calc_runave
+   uses) and an analysis that starts at ANY relative step t0 (a variable defined in the middle of a run): the first
+   call only initialises; a line is written exactly at the relative steps u > t0 on the stride grid for which the
+   L evenly spaced steps u, u-s, .., u-(L-1)s are all after t0 (whether or not t0 is on the grid); it carries
+   constrain((x(u) + near(x(u), x(u-s)) + ..)/L) and the sample variance of the window measured with the variable's
+   own metric (colvar::dist2). *)
+Theorem C19_runave_any_type_any_start : forall (V : Type) (P : @vops R V) (dflt : V) (xs : list V) (L s it0 t0 : nat),
+  (1 <= L)%nat -> (1 <= s)%nat -> (t0 < length xs)%nat ->
+  runaveV_run Rops P L s it0 (rv0 (V:=V)) None (hist_from t0 (skipn t0 xs)) =
+  flat_map (fun u => if emitsV L s t0 u
+                     then [((it0 + u)%nat, win_meanV Rops P dflt xs L s u, win_varV Rops P dflt xs L s u,
+                            sqrt (win_varV Rops P dflt xs L s u))]
+                     else [])
+           (seq (S t0) (length xs - S t0)).
+Proof. intros V P dflt xs L s it0 t0 HL Hs Ht. exact (runaveV_lines P dflt xs L s it0 t0 HL Hs Ht). Qed.
+Print Assumptions C19_runave_any_type_any_start.
+
+Theorem C19_runave_line_condition : forall (L s t0 t : nat), (1 <= L)%nat -> (1 <= s)%nat ->
+  emitsV L s t0 t = true <-> (t mod s = 0 /\ t0 / s * s + L * s <= t)%nat.
+Proof. intros L s t0 t HL Hs. exact (emitsV_iff L s t0 HL Hs t). Qed.
+Print Assumptions C19_runave_line_condition.
+
+(* periodic scalars (period p, wrapped around c): an older value enters the average through its image within half a
+   period of the current value; the average is wrapped into [c - p/2, c + p/2); the deviations use the shortest image *)
+Theorem C19_runave_periodic_images : forall p c : R, (0 < p)%R ->
+  (forall x xi, exists (k : Z) (y : R), lv_near Rops (KPeriodic p c) [x] [xi] = [y] /\
+                                        (y = xi - IZR k * p /\ - p / 2 <= y - x < p / 2)%R) /\
+  (forall m, exists (k : Z) (y : R), lv_constrain Rops (KPeriodic p c) [m] = [y] /\
+                                     (y = m - IZR k * p /\ c - p / 2 <= y < c + p / 2)%R) /\
+  (forall d, exists k : Z, (pimage Rops p d = d - IZR k * p /\ - p / 2 <= d - IZR k * p < p / 2)%R).
+Proof.
+  intros p c Hp. split; [|split].
+  - intros x xi. exact (periodic_near_image p c x xi Hp).
+  - intros m. exact (periodic_constrain_wraps p c m Hp).
+  - intros d. exact (pimage_min_image p d Hp).
+Qed.
+Print Assumptions C19_runave_periodic_images.
+
 (* ---- time-correlation function -------------------------------------------------------------------- *)
 (* For all sequences xi, xj of values (component lists) of this variable and of the variable named by
    corrFuncWithColvar (xi = xj for the autocorrelation), all lengths, strides >= 1, offsets, the three
@@ -127,7 +165,69 @@ Theorem C19_repeated_step_is_ignored :
 Proof. split; [exact runave_repeated_step|exact acf_repeated_step]. Qed.
 Print Assumptions C19_repeated_step_is_ignored.
 
+(* ---- the other output files: which steps write them --------------------------------------------- *)
+(* A run over the steps s0 .. s0+n followed by the end of the run (post_run).  For the variables' output files
+   (correlation functions; governed by the restart frequency) and for the output files of every bias (governed by
+   its outputFreq; bias names distinct): the file is written at most once per step, exactly at the steps of the run
+   after its first one that are multiples of the governing frequency, and at the last step; so the last write - what
+   is left on disk - is made at the last step of the run. *)
+Theorem C19_output_files_final_and_once : forall (c : ocfg) (k : ofile) (f s0 : Z) (n : nat),
+  NoDup (map fst (oc_biases c)) -> governs c k f ->
+  let last := (s0 + Z.of_nat n)%Z in
+  let w := writes_of k (out_run c (map OCalc (run_steps s0 (S n)) ++ [OEnd last])) in
+  NoDup w /\ List.last w 0%Z = last /\
+  forall it, In it w <-> (it = last \/ ((s0 <= it <= last)%Z /\ at_freq c f it = true)).
+Proof. exact output_final_and_once. Qed.
+Print Assumptions C19_output_files_final_and_once.
+
+(* the state file (whose `step` field is the step at which it is written): at the restart-frequency steps and,
+   always, at the end of the run *)
+Theorem C19_state_file_steps : forall (c : ocfg) (s0 : Z) (n : nat),
+  let last := (s0 + Z.of_nat n)%Z in
+  writes_of FState (out_run c (map OCalc (run_steps s0 (S n)) ++ [OEnd last])) =
+  filter (at_freq c (oc_restart_freq c)) (run_steps s0 (S n)) ++ [last].
+Proof. exact state_file_steps. Qed.
+Print Assumptions C19_state_file_steps.
+
+(* ---- label text ------------------------------------------------------------------------------------ *)
+(* FULL STATEMENT (false of the code): the token a reader sees for a column is prefix ++ name, so that different
+   columns have different labels.  True for names that fit in the column width: *)
+Theorem C19_label_identifies_column_partial : forall prefix n1 n2 width,
+  no_blank prefix -> no_blank n1 -> no_blank n2 ->
+  (length prefix + length n1 <= width)%nat -> (length prefix + length n2 <= width)%nat ->
+  label_token prefix n1 width = prefix ++ n1 /\
+  (label_token prefix n1 width = label_token prefix n2 width -> n1 = n2).
+Proof.
+  intros prefix n1 n2 width Hp H1 H2 L1 L2. split.
+  - apply label_token_short; assumption.
+  - apply label_token_injective_short; assumption.
+Qed.
+Print Assumptions C19_label_identifies_column_partial.
+
+(* a longer name is cut to the width (wrap_string) ... *)
+Theorem C19_label_cut_when_long : forall prefix name width,
+  no_blank prefix -> no_blank name -> (width < length prefix + length name)%nat -> (length prefix <= width)%nat ->
+  label_token prefix name width = prefix ++ firstn (width - length prefix) name.
+Proof. exact label_token_long. Qed.
+Print Assumptions C19_label_cut_when_long.
+
+(* ... so two variables whose names share their first 21 characters are announced by the same label, and so are the
+   velocity column of "a" and the value column of a variable named "v_a" (recorded in known_findings.txt) *)
+Theorem C19_label_identifies_column_refuted :
+  (exists n1 n2, n1 <> n2 /\ no_blank n1 /\ no_blank n2 /\ label_token [] n1 21 = label_token [] n2 21) /\
+  label_token [118; 95]%nat [97]%nat 21 = label_token [] [118; 95; 97]%nat 21.
+Proof. exact label_collisions. Qed.
+Print Assumptions C19_label_identifies_column_refuted.
+
 (* ---- the premises are satisfiable; the specification functions compute what they should ---------- *)
+Example C19_ex_label : no_blank [118; 95]%nat /\ label_token [118; 95]%nat [97; 98]%nat 21 = [118; 95; 97; 98]%nat.
+Proof. split; [repeat constructor; discriminate|vm_compute; reflexivity]. Qed.
+Example C19_ex_out :
+  out_run (mkOC 2 0 [(0, 3)])%Z [OCalc 0; OCalc 1; OCalc 2; OCalc 3; OEnd 3]%Z =
+    [(2, FState); (2, FColvar); (3, FBias 0); (3, FState); (3, FColvar)]%Z.
+Proof. vm_compute. reflexivity. Qed.
+Example C19_ex_governs : governs (mkOC 2 0 [(0, 3)])%Z (FBias 0) 3 /\ NoDup (map fst [(0, 3)]%Z).
+Proof. split; [left; reflexivity|constructor; [intros []|constructor]]. Qed.
 Example C19_ex_run : (0 < t_freq (traj_init 2 (mkCfg [mkVF 0 true true false false true false false] [])))%Z.
 Proof. reflexivity. Qed.
 Example C19_ex_traj :
@@ -140,6 +240,10 @@ Example C19_ex_runave :
   runave_run Qops 3 1 10 (r0 (T:=Q)) None (hist [1; 2; 4; 8; 16]%Q) =
     [(13%nat, 14 # 3, 28 # 3, 28 # 3); (14%nat, 28 # 3, 112 # 3, 112 # 3)]%Q.
 Proof. exact runave_instance. Qed.
+Example C19_ex_runave_periodic :
+  runaveV_run Qops (lv_ops Qops (KPeriodic 8%Q 0%Q)) 2 1 0 (rv0 (V:=list Q)) None (hist [[0]; [7 # 2]; [- 7 # 2]]%Q) =
+    [(2%nat, [(-4)%Q], (1 # 2)%Q, (1 # 2)%Q)].
+Proof. exact runave_periodic_instance. Qed.
 Example C19_ex_acf_offset :
   acf_model Qops AcfCoor true 1 1 1 (hist (map (fun v : list Q => (v, v)) [[1]; [2]; [4]; [8]; [16]; [32]]%Q)) =
     ([(0%nat, 1); (2%nat, 1 # 4)]%Q, 3%nat).
